@@ -14,7 +14,7 @@ from .common import q, qmat
 LEVEL = "proof"
 TRUSTED = [
     "model: lean/RpyModel/Training.lean (buffers, partial_fit / fit / fit() / freeze, failure at sequence k; learning rule abstract), instantiated by the driver with the exact ridge rule of RpyModel.Readout",
-    "theorems: lean/RpyProofs/Props/C11.lean (inference pure; fixed weights never written over any history; frozen => every training operation rejected and nothing changes; every fit - completed or failed - leaves clean buffers, so a fit is a function of its own data: fit d1; fit d2 = failed fit; fit d2 = fresh; fit d2; partial fits then fit() = one fit on the concatenation)",
+    "theorems: lean/RpyProofs/Props/C11.lean (inference pure; fixed weights never written over any history; frozen => every training operation rejected and nothing changes; every fit - completed or failed - leaves clean buffers, so a fit is a function of its own data: fit d1; fit d2 = failed fit; fit d2 = fresh; fit d2; partial fits then fit() = one fit on the concatenation; the model-level switch freezes every learner, each of which then keeps everything under any operation sequence - C11_model_freeze; a rejected fit(X, Y) = a fit failing before its first sequence - C11_rejected_fit)",
     "Python aliasing (shared list objects) is outside a value model: covered by the refit checks on default-buffer nodes",
 ]
 
